@@ -114,6 +114,26 @@ func (H) Generate(prop string, rng *rand.Rand, tier string) any {
 	if rng.IntN(5) == 0 {
 		p.PreStart = 1 + rng.IntN(4)
 	}
+	if rng.IntN(8) == 0 {
+		// full-buffer scenario: everything enabled, one producer fills the 1024-slot buffer, then plain lines and
+		// tracer submissions of all producers meet the full buffer
+		p.InitLevel = 1
+		p.Ctrl = nil
+		fill := LogOp{Kind: "burst", Sev: 2 + rng.IntN(5), Pkg: rng.IntN(2), N: 1020 + rng.IntN(60)}
+		tail := []LogOp{{Kind: "tracer", Sev: 2 + rng.IntN(5), Pkg: rng.IntN(2), N: 1 + rng.IntN(5)}, {Kind: "log", Sev: 2 + rng.IntN(5), Pkg: rng.IntN(2)},
+			{Kind: "tracer", Sev: 2 + rng.IntN(5), Pkg: rng.IntN(2), N: 1 + rng.IntN(5)}}
+		p.Producers[0] = append(append([]LogOp{fill}, tail...), p.Producers[0]...)
+		if len(p.Producers[0]) > 8 {
+			p.Producers[0] = p.Producers[0][:8]
+		}
+		for i := 1; i < len(p.Producers); i++ {
+			for k := range p.Producers[i] {
+				if p.Producers[i][k].Kind == "burst" && p.Producers[i][k].N > 8 {
+					p.Producers[i][k].N = 2 + rng.IntN(6)
+				}
+			}
+		}
+	}
 	return p
 }
 
